@@ -4,6 +4,7 @@ import (
 	"fmt"
 	"go/token"
 	"go/types"
+	"sort"
 	"strings"
 
 	"golang.org/x/tools/go/ssa"
@@ -91,6 +92,22 @@ func init() {
 				{File: "internal/socks5/udp.go", Old: "\t\t// Only the client that owns the association may use the relay.\n", New: "\t\ta.handleDatagram(buf[:n], clientAddr)\n\t}\n}\n\nfunc (a *UDPAssociation) handleDatagram(data []byte, clientAddr *net.UDPAddr) {\n\tfor once := true; once; once = false {\n\t\tn := len(data)\n\t\tbuf := data\n\t\t// Only the client that owns the association may use the relay.\n"},
 				{File: "internal/socks5/udp.go", Old: "\t\ta.mu.Lock()\n\t\tif a.ActualClientAddr == nil {\n\t\t\ta.ActualClientAddr = clientAddr\n\t\t}\n\t\ta.mu.Unlock()\n", New: ""},
 				{File: "internal/socks5/udp.go", Old: "\t\towner := a.ownerIP()\n", New: "\t\ta.mu.Lock()\n\t\tif a.ActualClientAddr == nil {\n\t\t\ta.ActualClientAddr = clientAddr\n\t\t}\n\t\ta.mu.Unlock()\n\t\towner := a.ownerIP()\n"},
+			}},
+			{Name: "relay started asynchronously on views of the reused receive buffer (seed C22-d class)", ExpectRule: "C22.R4", Edits: []Edit{
+				{File: "internal/socks5/udp.go", Old: "\t\t\thandler.RelayUDPDatagram(streamID, destAddr, header.Port, header.AddrType, header.RawAddr, payload)\n", New: "\t\t\tgo handler.RelayUDPDatagram(streamID, destAddr, header.Port, header.AddrType, header.RawAddr, payload)\n"},
+			}},
+			{Name: "relay in a goroutine closure capturing the parsed header and payload", ExpectRule: "C22.R4", Edits: []Edit{
+				{File: "internal/socks5/udp.go", Old: "\t\t\thandler.RelayUDPDatagram(streamID, destAddr, header.Port, header.AddrType, header.RawAddr, payload)\n", New: "\t\t\tgo func() {\n\t\t\t\thandler.RelayUDPDatagram(streamID, destAddr, header.Port, header.AddrType, header.RawAddr, payload)\n\t\t\t}()\n"},
+			}},
+			{Name: "asynchronous relay of copied payload but aliased destination bytes", ExpectRule: "C22.R4", Edits: []Edit{
+				{File: "internal/socks5/udp.go", Old: "\t\t\thandler.RelayUDPDatagram(streamID, destAddr, header.Port, header.AddrType, header.RawAddr, payload)\n", New: "\t\t\tdata := append([]byte(nil), payload...)\n\t\t\tgo handler.RelayUDPDatagram(streamID, destAddr, header.Port, header.AddrType, header.RawAddr, data)\n"},
+			}},
+			{Name: "rewrite: asynchronous relay of copies of address and payload", Edits: []Edit{
+				{File: "internal/socks5/udp.go", Old: "\t\t\tdestAddr := &net.UDPAddr{IP: header.Address, Port: int(header.Port)}\n\t\t\thandler.RelayUDPDatagram(streamID, destAddr, header.Port, header.AddrType, header.RawAddr, payload)\n", New: "\t\t\traw := append([]byte(nil), header.RawAddr...)\n\t\t\tdata := append([]byte(nil), payload...)\n\t\t\tdst := &net.UDPAddr{IP: append(net.IP(nil), header.Address...), Port: int(header.Port)}\n\t\t\tgo handler.RelayUDPDatagram(streamID, dst, header.Port, header.AddrType, raw, data)\n"},
+			}},
+			{Name: "rewrite: a fresh receive buffer per datagram, relay asynchronous", Edits: []Edit{
+				{File: "internal/socks5/udp.go", Old: "\tbuf := make([]byte, 65535) // Max UDP datagram size\n\n\tfor {\n", New: "\tfor {\n\t\tbuf := make([]byte, 65535)\n"},
+				{File: "internal/socks5/udp.go", Old: "\t\t\thandler.RelayUDPDatagram(streamID, destAddr, header.Port, header.AddrType, header.RawAddr, payload)\n", New: "\t\t\tgo handler.RelayUDPDatagram(streamID, destAddr, header.Port, header.AddrType, header.RawAddr, payload)\n"},
 			}},
 			{Name: "rewrite: reply address copied into a fresh UDPAddr", Edits: []Edit{
 				{File: "internal/socks5/udp.go", Old: "\t_, err := a.UDPConn.WriteToUDP(packet, clientAddr)\n", New: "\tdst := &net.UDPAddr{IP: clientAddr.IP, Port: clientAddr.Port}\n\t_, err := a.UDPConn.WriteToUDP(packet, dst)\n"},
@@ -657,6 +674,7 @@ func runC22(p *kit.Program, r *kit.Report) {
 	r.Rule("C22.R1", "every path from a datagram read on the association socket to a relay into the mesh crosses an edge on which the datagram's source address equals an owner identity (request-named address, recorded client or control-connection peer only)")
 	r.Rule("C22.R2", "UDPAssociation.ActualClientAddr is stored only with a datagram source address, on paths that crossed such an edge (record after verification)")
 	r.Rule("C22.R3", "datagrams written to the association socket are addressed to ActualClientAddr only")
+	r.Rule("C22.R4", "bytes of a receive buffer that is reused for the next datagram are not handed to a goroutine, a channel or shared state without a copy (the next read, which runs before the sender check, would overwrite what is being relayed)")
 	cx := &c22cx{p: p}
 	cx.fExpected = p.Field("internal/socks5", "UDPAssociation", "ExpectedClientAddr")
 	cx.fActual = p.Field("internal/socks5", "UDPAssociation", "ActualClientAddr")
@@ -936,6 +954,9 @@ func runC22(p *kit.Program, r *kit.Report) {
 			"the owner identity ExpectedClientAddr is set from a value of origin "+bad+": whoever sends the first datagram defines who the owner is, and the source check then admits that sender")
 	}
 
+	// ---- R4: lifetime of the receive buffer
+	cx.ruleBufferLifetime(r, reads)
+
 	// ---- R3: writes on the association socket
 	nWrites := 0
 	for _, acc := range p.FieldAccessesOfKind(cx.fUDP, kit.FieldLoad) {
@@ -974,4 +995,275 @@ func runC22(p *kit.Program, r *kit.Report) {
 	}
 	r.Count("association_socket_writes", nWrites)
 	r.Require(nWrites >= 1, "floor: no addressed write on UDPAssociation.UDPConn found")
+}
+
+// ---------------------------------------------------------------------------------------------
+// R4: a reused receive buffer must not stay live across the next read
+
+func c22CanAlias(t types.Type, depth int) bool {
+	if depth > 3 {
+		return false
+	}
+	switch u := t.Underlying().(type) {
+	case *types.Slice, *types.Pointer, *types.Interface, *types.Map, *types.Chan, *types.Signature:
+		return true
+	case *types.Struct:
+		for i := 0; i < u.NumFields(); i++ {
+			if c22CanAlias(u.Field(i).Type(), depth+1) {
+				return true
+			}
+		}
+	case *types.Array:
+		return c22CanAlias(u.Elem(), depth+1)
+	case *types.Tuple:
+		for i := 0; i < u.Len(); i++ {
+			if c22CanAlias(u.At(i).Type(), depth+1) {
+				return true
+			}
+		}
+	}
+	return false
+}
+
+func c22LocalRoot(v ssa.Value) *ssa.Alloc {
+	for i := 0; i < 12; i++ {
+		switch x := v.(type) {
+		case *ssa.Alloc:
+			return x
+		case *ssa.FieldAddr:
+			v = x.X
+		case *ssa.IndexAddr:
+			v = x.X
+		default:
+			return nil
+		}
+	}
+	return nil
+}
+
+// c22Aliases computes, inside fn, the values that may share memory with root (sub-slices,
+// element addresses, results of helpers that return views of their argument, loads from local
+// objects such views were stored into). String conversions and append onto another slice copy.
+func (cx *c22cx) aliases(fn *ssa.Function, root ssa.Value, depth int) map[ssa.Value]bool {
+	A := map[ssa.Value]bool{root: true}
+	holds := map[*ssa.Alloc]bool{}
+	in := func(v ssa.Value) bool { return v != nil && A[v] }
+	for changed := true; changed; {
+		changed = false
+		mark := func(v ssa.Value) {
+			if !A[v] {
+				A[v] = true
+				changed = true
+			}
+		}
+		for _, f := range kit.WithClosures(fn) {
+			kit.Instrs(f, func(i ssa.Instruction) {
+				switch x := i.(type) {
+				case *ssa.Slice:
+					if in(x.X) {
+						mark(x)
+					}
+				case *ssa.ChangeType:
+					if in(x.X) {
+						mark(x)
+					}
+				case *ssa.MakeInterface:
+					if in(x.X) {
+						mark(x)
+					}
+				case *ssa.ChangeInterface:
+					if in(x.X) {
+						mark(x)
+					}
+				case *ssa.TypeAssert:
+					if in(x.X) {
+						mark(x)
+					}
+				case *ssa.Phi:
+					for _, e := range x.Edges {
+						if in(e) {
+							mark(x)
+						}
+					}
+				case *ssa.IndexAddr:
+					if in(x.X) {
+						mark(x)
+					}
+				case *ssa.FieldAddr:
+					if in(x.X) {
+						mark(x)
+					}
+				case *ssa.Extract:
+					if in(x.Tuple) && c22CanAlias(x.Type(), 0) {
+						mark(x)
+					}
+				case *ssa.UnOp:
+					if x.Op != token.MUL || !c22CanAlias(x.Type(), 0) {
+						return
+					}
+					if in(x.X) {
+						mark(x) // load through a pointer into aliased memory / from an object holding a view
+					} else if a := c22LocalRoot(x.X); a != nil && holds[a] {
+						mark(x)
+					}
+				case *ssa.Store:
+					if in(x.Val) {
+						if a := c22LocalRoot(x.Addr); a != nil && !holds[a] {
+							holds[a] = true
+							changed = true
+							mark(a)
+						}
+					}
+				case *ssa.MakeClosure:
+					for _, b := range x.Bindings {
+						if in(b) {
+							mark(x)
+						}
+					}
+				case *ssa.Call:
+					if !c22CanAlias(x.Type(), 0) {
+						return
+					}
+					cal := kit.CalleeOf(x)
+					if cal.Built == "append" {
+						if len(x.Call.Args) > 0 && in(x.Call.Args[0]) {
+							mark(x)
+						}
+						return
+					}
+					if cal.Built != "" {
+						return
+					}
+					any := false
+					for k, a := range x.Call.Args {
+						if !in(a) {
+							continue
+						}
+						if cal.Static != nil && cal.Static.Blocks != nil && kit.IsRepoPkg(cal.Pkg) && depth < 2 {
+							if k < len(cal.Static.Params) && cx.returnsView(cal.Static, k, depth+1) {
+								any = true
+							}
+						} else if cal.Name != "Clone" && !strings.HasPrefix(cal.Name, "Read") && !strings.HasPrefix(cal.Name, "Write") && cal.Pkg != "fmt" && cal.Pkg != "strconv" && cal.Pkg != "errors" && cal.Pkg != "encoding/hex" && cal.Pkg != "encoding/binary" {
+							any = true // unknown library function: may return a view of its argument
+						}
+					}
+					if x.Call.IsInvoke() && in(x.Call.Value) {
+						any = true
+					}
+					if any {
+						mark(x)
+					}
+				}
+			})
+		}
+	}
+	return A
+}
+
+// returnsView: a result of fn may share memory with its parameter #k.
+func (cx *c22cx) returnsView(fn *ssa.Function, k, depth int) bool {
+	A := cx.aliases(fn, fn.Params[k], depth)
+	for _, ret := range kit.Returns(fn) {
+		for i := range ret.Results {
+			if A[kit.ReturnResult(ret, i)] {
+				return true
+			}
+		}
+	}
+	return false
+}
+
+func (cx *c22cx) ruleBufferLifetime(r *kit.Report, reads map[*ssa.Function][]ssa.Instruction) {
+	p := cx.p
+	n, nShared := 0, 0
+	var tops []*ssa.Function
+	for fn := range reads {
+		tops = append(tops, fn)
+	}
+	sort.Slice(tops, func(i, j int) bool { return kit.FuncName(tops[i]) < kit.FuncName(tops[j]) })
+	for _, top := range tops {
+		for _, rd := range reads[top] {
+			c, ok := rd.(ssa.CallInstruction)
+			if !ok {
+				continue
+			}
+			buf := kit.Arg(c, 0)
+			if buf == nil {
+				continue
+			}
+			root := buf
+			for {
+				if sl, ok := root.(*ssa.Slice); ok {
+					root = sl.X
+					continue
+				}
+				if ct, ok := root.(*ssa.ChangeType); ok {
+					root = ct.X
+					continue
+				}
+				break
+			}
+			n++
+			// one buffer for all datagrams: its allocation is not re-executed after a read
+			ri, isInstr := root.(ssa.Instruction)
+			if isInstr && ri.Parent() == rd.Parent() && kit.CanReach(rd, ri) {
+				r.OK("C22.R4", fmt.Sprintf("%s receive buffer #%d", kit.FuncName(top), n), p.Pos(rd.Pos()), "a fresh buffer is allocated for every datagram")
+				continue
+			}
+			nShared++
+			A := cx.aliases(top, root, 0)
+			bad, badPos := "", p.Pos(rd.Pos())
+			isAlias := func(v ssa.Value) bool { return v != nil && A[v] }
+			for _, f := range kit.WithClosures(top) {
+				kit.Instrs(f, func(in ssa.Instruction) {
+					if bad != "" {
+						return
+					}
+					switch x := in.(type) {
+					case *ssa.Go:
+						hit := false
+						for _, a := range x.Call.Args {
+							if isAlias(a) {
+								hit = true
+							}
+						}
+						if x.Call.IsInvoke() && isAlias(x.Call.Value) {
+							hit = true
+						}
+						if mc, ok := x.Call.Value.(*ssa.MakeClosure); ok {
+							for _, b := range mc.Bindings {
+								if isAlias(b) {
+									hit = true
+								}
+							}
+						}
+						if hit {
+							bad, badPos = "a goroutine is started with a view of the receive buffer", p.Pos(x.Pos())
+						}
+					case *ssa.Send:
+						if isAlias(x.X) {
+							bad, badPos = "a view of the receive buffer is sent on a channel", p.Pos(x.Pos())
+						}
+					case *ssa.Store:
+						if isAlias(x.Val) && c22LocalRoot(x.Addr) == nil {
+							if _, isGlobalOrField := x.Addr.(*ssa.Alloc); !isGlobalOrField {
+								bad, badPos = "a view of the receive buffer is stored into state that outlives the iteration", p.Pos(x.Pos())
+							}
+						}
+					case *ssa.MapUpdate:
+						if isAlias(x.Value) {
+							if _, local := x.Map.(*ssa.MakeMap); !local {
+								bad, badPos = "a view of the receive buffer is stored into a shared map", p.Pos(x.Pos())
+							}
+						}
+					}
+				})
+			}
+			r.Decide(bad == "", "C22.R4", fmt.Sprintf("%s receive buffer #%d", kit.FuncName(top), n), badPos,
+				"the reused receive buffer is only used synchronously within the iteration that filled it",
+				bad+" while the same buffer is refilled by the next read: that read happens before the sender check, so a stranger's datagram overwrites the address/payload still being relayed for the owner and is forwarded under the owner's association (copy the bytes, or allocate a buffer per datagram)")
+		}
+	}
+	r.Count("receive_buffers", n)
+	r.Count("receive_buffers_reused", nShared)
 }
